@@ -10,11 +10,12 @@ mod sched;
 mod uidgen;
 mod util;
 mod val;
+mod xmlchannel;
 
 fn main() {
     std::panic::set_hook(Box::new(|_| {}));
     let args: Vec<String> = std::env::args().collect();
-    let handled = uidgen::cli(&args) || dbdump::cli(&args) || domops::cli(&args) || sched::cli(&args) || attr::cli(&args);
+    let handled = xmlchannel::cli(&args) || uidgen::cli(&args) || dbdump::cli(&args) || domops::cli(&args) || sched::cli(&args) || attr::cli(&args);
     if !handled {
         eprintln!("usage: rbxverif <kind>-<gen|run> ...");
         std::process::exit(2);
